@@ -38,6 +38,7 @@ type ClassSupers struct {
 
 // Call the the function with the arguments provided.
 func (f *ClassSupers) Call(s *slip.Scope, args slip.List, depth int) (result slip.Object) {
+	slip.CheckArgCount(s, depth, f, args, 1, 1)
 	c := classFromArg0(f, s, args, depth)
 top:
 	switch tc := c.(type) {
